@@ -178,4 +178,35 @@ example : syncEntry false 5 (some (some 3)) ⟨1, .locked, 1, 1⟩ = some (.goRe
 example : syncEntry false 5 (some none) ⟨1, .cancelled, 1, 1⟩ = some (.goKill 1) := by decide
 example : syncEntry true 5 none ⟨1, .running, 1, 1⟩ = none := by decide
 
+/-! ### fixStaleLocks -/
+
+/-- `fixStaleLocks` unlocks only containers that are Locked in the queue and not reported by
+`Running()`, and only if some worker is in state Unknown; … -/
+theorem C14_fixStale_unlocks_only_stale (anyUnknown : Bool) (entries : List Ent) (running : Uuid → Bool)
+    (u : Uuid) (h : u ∈ fixStaleLocks anyUnknown entries running) :
+    anyUnknown = true ∧ ∃ e ∈ entries, e.uuid = u ∧ e.state = .locked ∧ running u = false := by
+  unfold fixStaleLocks at h
+  split at h
+  · rename_i ha
+    simp only [staleLocks, List.mem_map, List.mem_filter, Bool.and_eq_true, beq_iff_eq,
+      Bool.not_eq_eq_eq_not, Bool.not_true] at h
+    obtain ⟨e, ⟨he, hl, hr⟩, rfl⟩ := h
+    exact ⟨ha, e, he, rfl, hl, hr⟩
+  · cases h
+
+/-- … it does not look at containers in any other state: when no *Locked* container is missing
+from `Running()` it returns at once, however many workers are still Unknown. (This is one of the
+ways assumption A1 can fail, see F11.) -/
+theorem C14_fixStale_ignores_unlocked (anyUnknown : Bool) (entries : List Ent) (running : Uuid → Bool)
+    (h : ∀ e ∈ entries, e.state = .locked → running e.uuid = true) :
+    fixStaleLocks anyUnknown entries running = [] := by
+  unfold fixStaleLocks staleLocks
+  split
+  · simp only [List.map_eq_nil_iff, List.filter_eq_nil_iff, Bool.and_eq_true, beq_iff_eq,
+      Bool.not_eq_eq_eq_not, Bool.not_true, not_and, Bool.not_eq_false]
+    exact fun e he hl => h e he hl
+  · rfl
+
+example : fixStaleLocks true [⟨1, .locked, 5, 1⟩, ⟨2, .queued, 5, 1⟩] (fun _ => false) = [1] := by decide
+
 end ArvVerif.C14
